@@ -65,55 +65,175 @@ def byte_form(prog, mod, e: ast.expr) -> str:
     return "raw(%s)" % norm(e)
 
 
-def build_frame(ctx: Ctx, fn: FuncInfo) -> Tuple[List[str], Optional[str], List[str], Optional[str]]:
-    """(fixed bytes, name of the extended payload or None, trailer bytes, crc variable)"""
-    prog = ctx.prog
-    fixed: List[Optional[str]] = []
-    tail_payload = None
-    trailer: List[str] = []
-    crc_var = None
-    crc_after = None
-    buf = None
+class _Subst(ast.NodeTransformer):
+    def __init__(self, env):
+        self.env = env
+
+    def visit_Name(self, n):
+        if isinstance(n.ctx, ast.Load) and n.id in self.env:
+            import copy
+            return copy.deepcopy(self.env[n.id])
+        return n
+
+
+def _subst(e: ast.expr, env: Dict[str, ast.expr]) -> ast.expr:
+    import copy
+    return ast.fix_missing_locations(_Subst(env).visit(copy.deepcopy(e))) if env else e
+
+
+class _Frame:
+    def __init__(self):
+        self.fixed: List[Optional[str]] = []
+        self.payload: Optional[str] = None
+        self.trailer: List[str] = []
+        self.crc_var: Optional[str] = None
+        self.crc_after = None
+        self.returned = False
+
+
+def _run_builder(ctx: Ctx, fn: FuncInfo, fr: _Frame, buf: Optional[str], env: Dict[str, ast.expr], depth: int = 0) -> Optional[str]:
+    """Abstractly execute the straight-line body of a frame builder (or of a helper it hands the frame to) on the
+    symbolic frame *fr*.  Scalar locals are substituted into the byte expressions; returns 'frame' when the function
+    returns bytes(<frame>)."""
+    prog, res = ctx.prog, ctx.res
+    if depth > 3:
+        raise AnalysisError("frame helpers nested too deeply at %s" % fn.short)
+    result = None
+
+    def helper_call(call: ast.Call):
+        """A package function that receives the frame buffer: interpret its body on the same frame."""
+        if buf is None or not any(isinstance(a, ast.Name) and a.id == buf for a in call.args):
+            return None
+        ct = res.resolve_call(call, fn)
+        if len(ct.funcs) != 1 or ct.funcs[0].is_lambda:
+            return None
+        g = ct.funcs[0]
+        genv: Dict[str, ast.expr] = {}
+        gbuf = None
+        for pn in g.params:
+            a = arg_for(call, g, pn)
+            if a is None:
+                continue
+            if isinstance(a, ast.Name) and a.id == buf:
+                gbuf = pn
+            else:
+                genv[pn] = _subst(a, env)
+        if gbuf is None:
+            return None
+        return (_run_builder(ctx, g, fr, gbuf, genv, depth + 1),)
+
     for st in fn.node.body:
         if isinstance(st, ast.Expr) and isinstance(st.value, ast.Constant):
             continue
         if isinstance(st, (ast.Assign, ast.AnnAssign)):
             tgt = st.targets[0] if isinstance(st, ast.Assign) else st.target
             val = st.value
-            if isinstance(tgt, ast.Name) and isinstance(val, ast.Call) and norm(val.func) == "bytearray" and len(val.args) == 1:
+            if isinstance(tgt, ast.Name) and isinstance(val, ast.Call) and norm(val.func) == "bytearray" and len(val.args) == 1 and buf is None:
                 buf = tgt.id
-                fixed = [None] * prog.consteval(val.args[0], fn.module)
+                fr.fixed = [None] * prog.consteval(_subst(val.args[0], env), fn.module)
                 continue
             if isinstance(tgt, ast.Subscript) and isinstance(tgt.value, ast.Name) and tgt.value.id == buf:
-                idx = prog.consteval(tgt.slice, fn.module)
-                if tail_payload is not None or trailer:
+                idx = prog.consteval(_subst(tgt.slice, env), fn.module)
+                if fr.payload is not None or fr.trailer:
                     raise AnalysisError("%s stores into the fixed part after extending the frame" % fn.short)
-                fixed[idx] = byte_form(prog, fn.module, val)
+                fr.fixed[idx] = byte_form(prog, fn.module, _subst(val, env))
                 continue
-            if isinstance(tgt, ast.Name) and isinstance(val, ast.Call) and norm(val.func) == "_modbus_checksum" and norm(val.args[0]) == buf:
-                crc_var = tgt.id
-                crc_after = (len(fixed), tail_payload, len(trailer))
+            if isinstance(tgt, ast.Name) and isinstance(val, ast.Call) and norm(val.func) == "_modbus_checksum" and buf is not None and norm(val.args[0]) == buf:
+                fr.crc_var = tgt.id
+                fr.crc_after = (len(fr.fixed), fr.payload, len(fr.trailer))
+                continue
+            if isinstance(tgt, ast.Name) and val is not None and tgt.id != buf and not any(isinstance(x, ast.Name) and x.id == buf for x in ast.walk(val)):
+                env = dict(env)
+                env[tgt.id] = _subst(val, env)     # scalar local (size = len(values))
                 continue
         if isinstance(st, ast.Expr) and isinstance(st.value, ast.Call) and isinstance(st.value.func, ast.Attribute) and isinstance(st.value.func.value, ast.Name) \
                 and st.value.func.value.id == buf:
             m = st.value.func.attr
             if m == "extend":
-                tail_payload = norm(st.value.args[0])
+                fr.payload = norm(_subst(st.value.args[0], env))
                 continue
             if m == "append":
-                trailer.append(byte_form(prog, fn.module, st.value.args[0]))
+                fr.trailer.append(byte_form(prog, fn.module, _subst(st.value.args[0], env)))
+                continue
+        if isinstance(st, ast.Expr) and isinstance(st.value, ast.Call):
+            r = helper_call(st.value)
+            if r is not None:
                 continue
         if isinstance(st, ast.Return):
-            if not (isinstance(st.value, ast.Call) and norm(st.value.func) == "bytes" and norm(st.value.args[0]) == buf):
-                raise AnalysisError("%s does not return bytes(<frame>)" % fn.short)
-            continue
+            v = st.value
+            if isinstance(v, ast.Call) and norm(v.func) == "bytes" and len(v.args) == 1 and norm(v.args[0]) == buf:
+                result = "frame"
+                continue
+            if isinstance(v, ast.Call):
+                r = helper_call(v)
+                if r is not None and r[0] == "frame":
+                    result = "frame"
+                    continue
+            raise AnalysisError("%s does not return bytes(<frame>)" % fn.short)
         raise AnalysisError("statement %s of %s is not understood by the frame builder analysis" % (norm(st)[:60], fn.short))
-    if any(b is None for b in fixed):
-        fixed = [b if b is not None else "const:0" for b in fixed]    # bytearray(n) is zero filled
+    return result
+
+
+def build_frame(ctx: Ctx, fn: FuncInfo) -> Tuple[List[str], Optional[str], List[str], Optional[str]]:
+    """(fixed bytes, name of the extended payload or None, trailer bytes, crc variable)"""
+    fr = _Frame()
+    if _run_builder(ctx, fn, fr, None, {}) != "frame":
+        raise AnalysisError("%s does not return bytes(<frame>)" % fn.short)
+    fixed = [b if b is not None else "const:0" for b in fr.fixed]    # bytearray(n) is zero filled
     crc_ok = None
-    if crc_var is not None:
-        crc_ok = "after-all" if crc_after == (len(fixed), tail_payload, 0) else "early"
-    return fixed, tail_payload, trailer, (crc_var + ":" + crc_ok) if crc_var else None
+    if fr.crc_var is not None:
+        crc_ok = "after-all" if fr.crc_after == (len(fixed), fr.payload, 0) else "early"
+    return fixed, fr.payload, fr.trailer, (fr.crc_var + ":" + crc_ok) if fr.crc_var else None
+
+
+def _flat_concat(e: ast.expr) -> List[str]:
+    """Operands of a string concatenation, adjacent literals merged."""
+    if isinstance(e, ast.BinOp) and isinstance(e.op, ast.Add):
+        parts = _flat_concat(e.left) + _flat_concat(e.right)
+    elif isinstance(e, ast.JoinedStr):
+        parts = []
+        for v in e.values:
+            parts.extend(_flat_concat(v) if isinstance(v, ast.Constant) else ["{%s}" % norm(v)])
+    elif isinstance(e, ast.Constant) and isinstance(e.value, str):
+        parts = [("lit", e.value)]
+    else:
+        parts = [norm(e)]
+    out: List = []
+    for p_ in parts:
+        if isinstance(p_, tuple) and out and isinstance(out[-1], tuple):
+            out[-1] = ("lit", out[-1][1] + p_[1])
+        else:
+            out.append(p_)
+    return out
+
+
+def _header_checksum_ok(init: FuncInfo) -> bool:
+    """super().__init__(bytes.fromhex(S + self._checksum(bytes.fromhex(S)).hex()), ...) with S = 'AA55C07F' + payload,
+    locals expanded."""
+    from ..astutil import single_assignments
+    local = single_assignments(init.node)
+    sup = [n for n in ast.walk(init.node) if isinstance(n, ast.Call) and isinstance(n.func, ast.Attribute) and n.func.attr == "__init__"
+           and isinstance(n.func.value, ast.Call) and norm(n.func.value.func) == "super"]
+    if len(sup) != 1 or not sup[0].args:
+        return False
+    req = sup[0].args[0]
+    for _ in range(4):
+        req = _subst(req, local)
+    if not (isinstance(req, ast.Call) and norm(req.func) == "bytes.fromhex" and len(req.args) == 1):
+        return False
+    body = req.args[0]
+    if not (isinstance(body, ast.BinOp) and isinstance(body.op, ast.Add)):
+        return False
+    tail = body.right
+    # <checksum call>.hex()
+    if not (isinstance(tail, ast.Call) and isinstance(tail.func, ast.Attribute) and tail.func.attr == "hex" and isinstance(tail.func.value, ast.Call)
+            and (call_chain(tail.func.value) or ("",))[-1] == "_checksum" and len(tail.func.value.args) == 1):
+        return False
+    inner = tail.func.value.args[0]
+    if not (isinstance(inner, ast.Call) and norm(inner.func) == "bytes.fromhex" and len(inner.args) == 1):
+        return False
+    sent, summed = _flat_concat(body.left), _flat_concat(inner.args[0])
+    return sent == summed and bool(sent) and isinstance(sent[0], tuple) and sent[0][1].upper().startswith("AA55C07F")
 
 
 REFERENCE_FRAMES = {
@@ -454,9 +574,7 @@ def r2_r3(ctx: Ctx, rep: Report):
     if nfields < 10:
         raise AnalysisError("only %d interpolated AA55 fields found" % nfields)
     # header and checksum over the same string
-    srcs = [norm(n) for n in ast.walk(init.node) if isinstance(n, ast.BinOp) and isinstance(n.op, ast.Add) and isinstance(n.left, ast.Constant) and n.left.value == "AA55C07F"]
-    cks = [n for n in ast.walk(init.node) if isinstance(n, ast.Call) and (call_chain(n) or ("",))[-1] == "_checksum"]
-    ok = len(srcs) >= 2 and len(set(srcs)) == 1 and len(cks) == 1 and norm(cks[0].args[0]) == "bytes.fromhex(%s)" % srcs[0]
+    ok = _header_checksum_ok(init)
     rep.check(ok, "C03.R3", "header-checksum", init.loc(), "frame = C07F header + payload + checksum of exactly that prefix",
               bad="Aa55ProtocolCommand.__init__: the checksum is not computed over the same 'AA55C07F' + payload string that is sent")
     ck = target.methods.get("_checksum")
@@ -527,38 +645,124 @@ def _cmd_values(ctx: Ctx, fn: FuncInfo):
 
 
 # ----------------------------------------------------------------- R4
+def _meet(ivs: List[Tuple[int, int]], f: Fact, var: Tuple) -> Optional[List[Tuple[int, int]]]:
+    """Restrict the intervals of the counter by one linear fact over it; None when the fact is not linear in the counter."""
+    if f.kind not in ("eq", "ne", "ge") or f.lin is None:
+        return None
+    l = f.lin
+    if set(l.terms) - {var}:
+        return None
+    a = l.terms.get(var, 0)
+    if a == 0:
+        holds = (l.const == 0) if f.kind == "eq" else (l.const != 0) if f.kind == "ne" else (l.const >= 0)
+        return ivs if holds else []
+    out: List[Tuple[int, int]] = []
+    import math
+    for lo, hi in ivs:
+        if f.kind == "ge":      # a*x + b >= 0
+            if a > 0:
+                lo2, hi2 = max(lo, math.ceil(-l.const / a)), hi
+            else:
+                lo2, hi2 = lo, min(hi, math.floor(-l.const / a))
+            if lo2 <= hi2:
+                out.append((lo2, hi2))
+        else:
+            pt = -l.const / a
+            if pt.denominator != 1:
+                if f.kind == "ne":
+                    out.append((lo, hi))
+                continue
+            pt = int(pt)
+            if f.kind == "eq":
+                if lo <= pt <= hi:
+                    out.append((pt, pt))
+            else:
+                if pt < lo or pt > hi:
+                    out.append((lo, hi))
+                else:
+                    if lo <= pt - 1:
+                        out.append((lo, pt - 1))
+                    if pt + 1 <= hi:
+                        out.append((pt + 1, hi))
+    return out
+
+
+def _next_tx_invariant(ctx: Ctx, fn: FuncInfo) -> Tuple[bool, str]:
+    """The counter update as a guarded transition system (one guard + linear update per path of _next_tx): find an
+    interval [L, H] within [0, 0xFFFF] that contains the initial value, is closed under every transition, and whose
+    transitions all produce a value in [1, 0xFFFF] different from the previous one, returned as 2 unsigned big-endian bytes."""
+    prog = ctx.prog
+    globs = [n for st in ast.walk(fn.node) if isinstance(st, ast.Global) for n in st.names]
+    if len(globs) != 1:
+        return False, "expected one module-level counter, found %s" % globs
+    name = globs[0]
+    var = ("var", name)
+    b = fn.module.scope.get(name)
+    init = _const(prog, fn, b[1]) if b and b[0] == "const" else None
+    if not isinstance(init, int):
+        return False, "initial value of %s is not a constant" % name
+    trans = []
+    consts = {init}
+    for p in enumerate_paths(prog, fn, no_raise):
+        if p.end != "return" or p.end_node.value is None:
+            return False, "a path does not return the transaction id"
+        rp = Replay(prog, fn, p)
+        final = rp.sym.env.get(name)
+        if final is None:
+            return False, "a path returns without changing the counter"
+        final = final if isinstance(final, Lin) else Lin.of_term(final)
+        if set(final.terms) - {var} or final.terms.get(var, 0) not in (0, 1):
+            return False, "the update %r is not 'counter + constant' or a constant" % final
+        tb = rp.sym.lin(p.end_node.value).single_term()
+        inner = None
+        if tb is not None and tb[0] == "tobytes":
+            inner = tb[1][1] if tb[1][0] == "lin" else Lin.of_term(tb[1])
+        if not (tb is not None and tb[0] == "tobytes" and tb[2] == 2 and tb[3] == "big" and not tb[4] and inner == final):
+            return False, "the result is not the new counter value as 2 big-endian unsigned bytes"
+        for f in rp.facts:
+            if f.lin is not None and var in f.lin.terms:
+                pt = -f.lin.const / f.lin.terms[var]
+                if pt.denominator == 1:
+                    consts |= {int(pt) - 1, int(pt), int(pt) + 1}
+        if final.is_const():
+            consts.add(int(final.const))
+        trans.append((rp.facts, final, p))
+    if not trans:
+        return False, "no path"
+    cands = sorted(c for c in consts if 0 <= c <= 0xFFFF)
+    reason = "no interval [L, H] in [0, 0xFFFF] containing the initial value %d is closed under the update" % init
+    for L in [c for c in cands if c <= init]:
+        for H in [c for c in cands if c >= init][::-1]:
+            good = True
+            covered: List[Tuple[int, int]] = []
+            for facts, final, p in trans:
+                ivs: Optional[List[Tuple[int, int]]] = [(L, H)]
+                for f in facts:
+                    ivs = _meet(ivs, f, var)
+                    if ivs is None:
+                        return False, "a test of the counter is not a linear comparison (%r)" % f
+                d = final.terms.get(var, 0)
+                for lo, hi in ivs:
+                    covered.append((lo, hi))
+                    nlo, nhi = (lo * d + int(final.const), hi * d + int(final.const)) if d else (int(final.const), int(final.const))
+                    if not (max(L, 1) <= nlo and nhi <= H and nhi <= 0xFFFF):
+                        good = False
+                        reason = "from [%d, %d] the path [%s] produces [%d, %d], outside [1, 0x%X]" % (lo, hi, p.describe(), nlo, nhi, min(H, 0xFFFF))
+                    elif d == 1 and final.const == 0:
+                        good = False
+                        reason = "the path [%s] does not change the id" % p.describe()
+                    elif d == 0 and lo <= nlo <= hi:
+                        good = False
+                        reason = "at the wrap the id %d is issued twice in a row (path [%s])" % (nlo, p.describe())
+            if good:
+                return True, "tx stays in [%d, %d] from %d on, every call issues a different non-zero 16-bit id" % (max(L, 1), H, init)
+    return False, reason
+
+
 def r4(ctx: Ctx, rep: Report):
     prog = ctx.prog
     fn = prog.func("protocol._next_tx")
-    body = [s for s in fn.node.body if not isinstance(s, ast.Global)]
-    ok = False
-    why = "shape not understood"
-    var = None
-    if len(body) == 3 and isinstance(body[0], ast.AugAssign) and isinstance(body[0].op, ast.Add) and isinstance(body[1], ast.If) and isinstance(body[2], ast.Return):
-        var = norm(body[0].target)
-        inc = _const(prog, fn, body[0].value)
-        t = body[1].test
-        K = c = None
-        if isinstance(t, ast.Compare) and len(t.ops) == 1 and norm(t.left) == var and isinstance(t.ops[0], (ast.Eq, ast.GtE)) and not body[1].orelse \
-                and len(body[1].body) == 1 and isinstance(body[1].body[0], ast.Assign) and norm(body[1].body[0].targets[0]) == var:
-            K = _const(prog, fn, t.comparators[0])
-            c = _const(prog, fn, body[1].body[0].value)
-        sym = Sym.for_function(prog, fn)
-        tb = sym.lin(body[2].value).single_term()
-        init = _const(prog, fn, prog.modules["goodwe.protocol"].scope.get(var, (None, ast.Constant(value=None)))[1]) if var in prog.modules["goodwe.protocol"].scope else None
-        if inc != 1:
-            why = "the counter is not incremented by one"
-        elif K is None or c is None:
-            why = "no wrap-around test of the form 'if tx == K: tx = c'"
-        elif not (tb is not None and tb[0] == "tobytes" and tb[2] == 2 and tb[3] == "big" and not tb[4] and norm(body[2].value).count(var)):
-            why = "the result is not the counter as 2 big-endian unsigned bytes"
-        elif not (1 <= c <= K - 1 and K <= 0x10000 and c != K - 1):
-            why = "wrap from %s to %s does not stay in [1, 0x%X] / does not change the id" % (K, c, K - 1 if K else 0)
-        elif init is None or not (0 <= init <= K - 1):
-            why = "initial value %r outside [0, %d]" % (init, K - 1)
-        else:
-            ok = True
-            why = "tx in [1, %d], +1 per call, %d -> %d at the wrap" % (K - 1, K - 1, c)
+    ok, why = _next_tx_invariant(ctx, fn)
     rep.check(ok, "C03.R4", "next-tx", fn.loc(), "_next_tx: %s" % why, bad="_next_tx: %s: the transaction id may become 0, repeat, or overflow two bytes" % why)
     # the id is renewed for every transmission: every _next_tx() call site splices the id over bytes [0:2] of the frame and
     # lies in a function the TCP _send_request reaches before its transport write (request_bytes of the Modbus/TCP commands)
@@ -573,8 +777,17 @@ def r4(ctx: Ctx, rep: Report):
     if not sites:
         rep.violation("C03.R4", "stamp-sites", fn.loc(), "_next_tx() is never called: Modbus/TCP frames keep the placeholder transaction id")
     for f, n in sites:
-        spliced = any(isinstance(x, ast.BinOp) and isinstance(x.op, ast.Add) and x.left is n and isinstance(x.right, ast.Subscript) and isinstance(x.right.slice, ast.Slice)
-                      and norm(x.right.slice.lower) == "2" and x.right.slice.upper is None for x in ast.walk(f.node))
+        from ..astutil import single_assignments
+        local = single_assignments(f.node)
+        spliced = False
+        for st in ast.walk(f.node):
+            if isinstance(st, (ast.Assign, ast.Return)) and st.value is not None:
+                x = _subst(_subst(st.value, local), local)
+                if isinstance(x, ast.BinOp) and isinstance(x.op, ast.Add) and isinstance(x.left, ast.Call) and norm(x.left.func) == "_next_tx" \
+                        and isinstance(x.right, ast.Subscript) and isinstance(x.right.slice, ast.Slice) and x.right.slice.lower is not None \
+                        and _const(prog, f, x.right.slice.lower) == 2 and x.right.slice.upper is None \
+                        and (isinstance(st, ast.Return) or any(norm(t) == norm(x.right.value) for t in st.targets)):
+                    spliced = True
         per_send = f in reach
         rep.check(spliced and per_send, "C03.R4", "stamp:%s" % f.short, f.loc(n), "%s splices a fresh transaction id over bytes [0:2] on the path of every transmission" % f.short,
                   bad="%s: %s" % (f.short, "the new transaction id is not spliced as _next_tx() + <frame>[2:]" if not spliced else
